@@ -45,3 +45,11 @@ func VerifWaitFamily(f Family) {
 func VerifDeleteObsoleteFiles(f Family) {
 	f.deleteObsoleteFiles()
 }
+
+// VerifIsCompacting returns if a background compaction job of the family is running.
+func VerifIsCompacting(f Family) bool {
+	if fam, ok := f.(*family); ok {
+		return fam.compacting.Load()
+	}
+	return false
+}
